@@ -258,6 +258,9 @@ func init() {
 		if op == "rc.sensor" {
 			return rcSensor(a)
 		}
+		if op == "rc.cfgmap" {
+			return rcCfgMap(a)
+		}
 		return "bad-op"
 	})
 }
